@@ -350,6 +350,25 @@ pub fn run(ctx: &Ctx) -> Outcome {
     for a in accs {
         acc.merge(a);
     }
+    // lookups by name: every ordered pair of related terminal / nonterminal / variant / field names (names.rs);
+    // the two terminals of that grammar have different payload types
+    let name_sources = crate::names::relation_sources(ctx.tier.pick(2, 3));
+    let name_accs: Vec<Acc> = name_sources
+        .par_chunks(64)
+        .map(|chunk| {
+            let mut acc = Acc::default();
+            for src in chunk {
+                acc.inc("name-relation sources");
+                if let Some(f) = check_any_source(src, &mut acc) {
+                    acc.finding(f);
+                }
+            }
+            acc
+        })
+        .collect();
+    for a in name_accs {
+        acc.merge(a);
+    }
     // rustc: type identity for real types
     let units = real_type_units();
     let (errs, secs) = check_compile(&units.iter().map(|u| CompileUnit { files: u.1.files.clone(), decl: u.1.decl.clone(), main_call: String::new() }).collect::<Vec<_>>(), "pub struct Pair<A, B>(pub A, pub B);\npub fn any<T>() -> T { unreachable!() }\n", 12, "c13");
@@ -360,9 +379,9 @@ pub fn run(ctx: &Ctx) -> Outcome {
         }
     }
     let located_all = acc.get("emitted texts whose use sites could not be located (oracle not applicable)") == 0;
-    out.cov("evaluations", json!(n as u64 + units.len() as u64));
+    out.cov("evaluations", json!(n as u64 + units.len() as u64 + name_sources.len() as u64));
     out.cov("distinct_nontrivial", json!(n as u64 - 1));
-    out.cov("rule", json!(format!("all type expressions of nesting depth <= {depth} over {} atoms (unit, paths of 1-3 segments) and {} generic callees with 1 or 2 arguments (3 and 4 over the atoms), plus a chain of deeper nestings; each is spelt with rotating whitespace/comments between its tokens and declared as the payload of terminal Tt (terminal Uu gets another type of the space) in a grammar exposing 12 use sites and in four further grammar shapes (same type for two terminals, a terminal used only in a `_` field, only in a named variant field, unused; checked through the general type-definition oracle); distinct = distinct type expressions, non-trivial = not the unit type", atoms.len(), callees.len())));
+    out.cov("rule", json!(format!("all type expressions of nesting depth <= {depth} over {} atoms (unit, paths of 1-3 segments) and {} generic callees with 1 or 2 arguments (3 and 4 over the atoms), plus a chain of deeper nestings; each is spelt with rotating whitespace/comments between its tokens and declared as the payload of terminal Tt (terminal Uu gets another type of the space) in a grammar exposing 12 use sites and in four further grammar shapes (same type for two terminals, a terminal used only in a `_` field, only in a named variant field, unused; checked through the general type-definition oracle); plus the name-relation space (all ordered pairs of related names in 16 role pairs, two terminals with different payload types); distinct = distinct type expressions, non-trivial = not the unit type", atoms.len(), callees.len())));
     out.cov("exhaustive", json!(true));
     out.cov("use_sites_compared", json!(acc.get("use sites compared")));
     out.cov("all_use_sites_located", json!(located_all));
@@ -371,8 +390,8 @@ pub fn run(ctx: &Ctx) -> Outcome {
     out.cov("histogram", json!(acc.counters));
     out.cov("notes", json!(acc.self_check_errors));
     out.cov("samples", json!([grammar_for(&spell(&all[n / 2], 5), &spell(&all[n / 3], 1))]));
-    if !located_all && acc.get("use sites compared") == 0 {
-        machinery_error("C13: no use site could be located in any emitted text");
+    if !located_all {
+        machinery_error(format!("C13: the use sites of {} emitted texts could not be located ({:?})", acc.get("emitted texts whose use sites could not be located (oracle not applicable)"), acc.self_check_errors.first()));
     }
     out.violating_cases = acc.violating;
     out.findings = acc.findings;
